@@ -26,7 +26,7 @@ Inductive payload :=
 | PAddrs (a : addresses)            (* Addresses *)
 | PTlv (k : N) (v : bytes)          (* TypeLengthValue *)
 | PPair (k : N) (v : bytes)         (* (T: Into<u8>, &[u8]) *)
-| PSection (b : bytes)              (* TypeLengthValues *)
+| PSection (b : bytes) (offset : N)  (* TypeLengthValues: the section bytes and the iteration cursor *)
 | PType (t : tlv_type).             (* Type *)
 
 (* to_be_bytes of a `width`-byte integer (two's complement for negative values) *)
@@ -65,7 +65,7 @@ Definition write_to (p : payload) (w : bytes) : option N * bytes :=
     | (true, w') => (Some (MINIMUM_TLV_LENGTH + lenN v), w')
     | (false, w') => (None, w')
     end
-  | PSection b =>
+  | PSection b _ =>     (* as_bytes(): the whole section, whatever the cursor *)
     match write_all w b with Some w' => (Some (lenN b), w') | None => (None, w) end
   | PType t =>
     (* Type uses `write`, not `write_all` *)
